@@ -1,6 +1,7 @@
 // C13 (static evaluation is colour-symmetric: metamorphic mirror relation)
 // C14 (static evaluation is pure and bounded: warm-vs-fresh evaluator over generated histories)
 #include "bridge.h"
+#include "ucisession.h"
 #include "registry.h"
 #include "score.h"
 #include "search.h"
@@ -441,6 +442,7 @@ bool prop_C14(Tape& t, Report& rep)
         mallopt(M_MMAP_THRESHOLD, 256 << 20);
         mallopt(M_TRIM_THRESHOLD, 1 << 30);
     }
+    if (t.chance(1, 30)) return us::run(t, rep, us::F_C14);
     build_slotinfo(rep);
     SlotInfo& S = slotinfo();
     // one long-lived evaluator per history (an 8 MB table; histories are short, so allocate per case)
